@@ -146,7 +146,11 @@ CLAIMED = {
               "parse a then b; RPC fold) this gives, for HTTP and ONC-RPC and every segmentation: the segments before the "
               "one containing the completing byte get bare ACKs, that segment carries the reply, and the reply is the one "
               "the unsegmented stream gets (C11_rpc_stream in the uniform form tcp_stream = rpc_stream_ref; "
-              "C11_http_stream / C11_http_stream_segmentation in decomposition form). Tied to /repo by sending request "
+              "C11_http_stream / C11_http_stream_segmentation in decomposition form, and Properties/C11uniform.v in the uniform form "
+              "tcp_stream = http_stream_ref with http_stream_ref defined from the stream alone; cut invariance for two arbitrary "
+              "segmentations of one stream, HTTP and RPC: the reply sits in the segment holding offset complete_at s, a function "
+              "of s only; frame level: for n data segments of a flow fed through reply(), the emitted frames carry exactly those "
+              "payloads with ACK / PSH|ACK flags -- C11_tcp_later_lift is the generic lift for later segments). Tied to /repo by sending request "
               "streams of all shapes, including malformed ones that must never be answered, junk-prefixed requests and "
               "RPC calls with arguments, under every 1-cut and 2-cut segmentation (exhaustive up to 80 bytes) and sampled "
               "k-cuts through real handshakes, compared with the model segment by segment and with the one-segment run."),
@@ -154,8 +158,10 @@ CLAIMED = {
         note=("Trusted: Coq kernel/vm_compute, extraction + OCaml driver, harness; correspondence is testing. The former known "
               "finding short_first_segment (first segment ends inside the signature: request lost) was REPAIRED in /repo "
               "(fix b2fc7fc: bounded prefix buffer) and model, proofs and check follow; its witnesses are ordinary corpus "
-              "cases now. The HTTP statement is in decomposition form (quiet prefix, then http_outs on the joined stream), "
-              "not the uniform equation. The transport framing (seq/ack of each segment) is C07."),
+              "cases now. The invariance holds up to and including the FIRST reply of a flow: what follows an answered request in "
+              "the same segment is dropped by the responders (a pipelined second request is answered only if it starts a "
+              "segment: C11_http_pipelined_cut_dependent, C11_rpc_pipelined_cut_dependent) -- outside 'a request delivered "
+              "in several segments', recorded as an observation. The transport framing (seq/ack of each segment) is C07."),
         technique="Coq theorems (matcher segmentation + prefix buffer invariant + fold/append laws of the incremental parsers, lifted to flows for every segmentation) + exhaustive 1-/2-cut model/implementation correspondence"),
     "C12": dict(
         text=("Coq theorems over the model: frames that layers 2-4 mark as replies (ARP ops other than request, ICMP/ICMPv6 "
@@ -289,10 +295,11 @@ CLAIMED = {
         note=("Trusted: Coq kernel/vm_compute, extraction + OCaml driver, harness; correspondence is testing. Identification "
               "is a hypothesis of the theorems: in-scope calls that the compiled matcher does not identify (first byte "
               "G P H D C O T S 0x00 over UDP, XID starting with 0x00 over TCP) are the known class rpc_shadowed (C10 "
-              "finding), decided by an extracted predicate and refuted by a kernel-computed witness. Partial: the IPv6 "
-              "address text (Rust Display rules) is shared between model and specification and validated by correspondence "
-              "and by the harness' independent parser only; the IPv4 text has a proved round trip through an independent "
-              "reader. Fixed finding: PROC_UNAVAIL was sent as 5 (SYSTEM_ERR)."),
+              "finding), decided by an extracted predicate and refuted by a kernel-computed witness. The address text shared "
+              "by model and specification is tied to independent readers by proved round trips: IPv4 (C16_uaddr4_roundtrip) "
+              "and, for all 16-octet addresses, IPv6 (Properties/C16ip6.v: an RFC 4291 reader written without looking at the "
+              "printer reads back what render_ipv6 prints, whichever zero run is compressed, incl. the IPv4-mapped form; "
+              "render_ipv6 is injective). Fixed finding: PROC_UNAVAIL was sent as 5 (SYSTEM_ERR)."),
         technique="Coq theorems (parser correctness, encoder/decoder round trip, dispatch) + extracted monitor on implementation output + model/implementation correspondence"),
     "C10": dict(
         text=("Coq theorems by reflection, for payloads of EVERY length: the published signature set is written by hand as a "
